@@ -114,7 +114,7 @@ package gzip
 //@   ensures [commit_at_most_once] committed <= old(committed) + 1 && (old(r.statusCodeWritten) ==> committed == old(committed))
 //@   ensures [adds_no_header_of_its_own] headerEdits == old(headerEdits)
 
-//@ unit gzip_handler props=C12,C18 filter=`gzip\.Gzip\)\.ServeHTTP$`
+//@ unit gzip_handler frames=on props=C12,C18 filter=`gzip\.Gzip\)\.ServeHTTP$`
 //@ ghost nextCalls int
 //@ ghost errBodies int
 //@ ghost nextRet int
